@@ -54,7 +54,7 @@ EXHAUSTIVE = {'quick': True, 'thorough': True}
 MIN_HITS = {
     'quick': {
         'mon:wht': 2500, 'mon:whtshape': 2500, 'mon:matrix': 130, 'mon:linear': 150, 'mon:invol': 150, 'mon:invalid': 12,
-        'mon:inputs': 500, 'mon:norm': 130, 'mon:inverse': 70, 'mon:keys': 12, 'mon:treenorm': 60, 'mon:treeinverse': 60, 'mon:treekeys': 12,
+        'mon:inputs': 500, 'hit:size1-leaf-signs': 8, 'mon:norm': 130, 'mon:inverse': 70, 'mon:keys': 12, 'mon:treenorm': 60, 'mon:treeinverse': 60, 'mon:treekeys': 12,
         'mon:treestruct': 60, 'style:pos': 90, 'style:kw': 90, 'style:default': 11, 'valid': 170, 'invalid': 20,
         'rot-shape:0d': 4, 'rot-shape:non-pow2': 20, 'rot-shape:rank>=2': 15, 'tree:has-0d-leaf': 4, 'tree:no-0d-leaf': 20,
     },
@@ -520,6 +520,25 @@ def run_tree_case(ctx, jax, jnp, wh, rng):
                      f'inverse tree structure {bdef} != input structure {treedef}', wit):
           for i, (l, bb) in enumerate(zip(leaves, bl)):
             judge_inverse(ctx, 'treeinverse', np.asarray(l), bb, {**wit, 'leaf': i})
+      # size-1 leaves: the rotation of a single coordinate is +-x; over 24 further keys both signs must occur (a size-1 leaf left
+      # unrotated would pass every norm / inverse check). P(one sign only | correct) = 2**-24 per leaf.
+      ones = [i for i, l in enumerate(leaves) if np.asarray(l).size == 1 and float(np.abs(np.asarray(l)).ravel()[0]) > 0]
+      if ones:
+        signs = {i: set() for i in ones}
+        for kseed in range(24):
+          rk = guarded(ctx, 'structured_rotation_pytree', lambda kseed=kseed: wh.structured_rotation_pytree(tree, jax.random.PRNGKey(7919 * kseed + s0 % 1000)),
+                       lambda e: None, wit)
+          if not rk.ok:
+            signs = None
+            break
+          rkl = jax.tree_util.tree_leaves(rk.value[0])
+          for i in ones:
+            signs[i].add(float(np.sign(np.asarray(rkl[i]).ravel()[0] * np.asarray(leaves[i]).ravel()[0])))
+        if signs is not None:
+          for i in ones:
+            ctx.count('hit:size1-leaf-signs')
+            ctx.check(signs[i] >= {1.0, -1.0}, 'treekeys/size-1-leaf-same-rotation-for-every-key',
+                      f'leaf {i} (a single coordinate) is rotated to the same sign under 24 different tree keys', {**wit, 'leaf': i, 'signs': sorted(signs[i])})
       big = [i for i, l in enumerate(leaves) if int(np.count_nonzero(np.asarray(l))) >= 16]
       if big:
         same = {i: [] for i in big}
